@@ -183,6 +183,33 @@ func (g *zzC08Gen) program(shape int) (defs []slip.Object, rest []slip.Object) {
 			second = zzDefun("zzb", P, g.m(), zzL(S("list"), S("p"), g.m()))
 		}
 		rest = []slip.Object{main, second, main, g.tr(zzL(S("zzb"), g.m()))}
+	case 12:
+		// an applied lambda form ((lambda (a) ..) arg) below a let, referring to the let variable, in a
+		// function that is called several times with different arguments (the form is converted in
+		// place at its first evaluation: nothing of that evaluation's bindings may stick to it);
+		// site selects what surrounds the applied lambda form
+		app := zzL(zzL(S("lambda"), zzL(S("a")), g.m(), zzL(S("+"), S("a"), S("k"))), g.m())
+		var inner slip.Object = app
+		switch g.site {
+		case 1:
+			inner = zzL(S("+"), g.m(), app)
+		case 2:
+			inner = g.tr(app)
+		case 3:
+			inner = zzL(S("if"), g.tr(zzL(S("<"), g.lit(), g.lit())), app, g.m())
+		case 4:
+			inner = zzL(S("let"), zzL(zzL(S("v"), g.m())), app)
+		case 5:
+			inner = zzL(S("funcall"), zzL(S("lambda"), zzL(S("a")), g.m(), zzL(S("+"), S("a"), S("k"))), g.m())
+		case 6:
+			inner = zzL(S("progn"), g.m(), app)
+		}
+		defs = []slip.Object{
+			zzDefun("zza", P, g.m(), zzL(S("let"), zzL(zzL(S("k"), zzL(S("+"), S("p"), g.lit()))), inner)),
+			zzDefun("zzb", P, g.m(), zzL(S("list"), zzL(S("zza"), g.tr(S("p"))), zzL(S("zza"), g.tr(zzL(S("+"), S("p"), g.lit()))))),
+			leafC,
+		}
+		rest = []slip.Object{g.tr(zzL(S("zza"), g.m())), g.tr(zzL(S("zza"), g.m())), g.tr(zzL(S("zzb"), g.m()))}
 	default:
 		g.invalid = true
 	}
